@@ -332,8 +332,8 @@ class C14(World):
                 if k == "read":
                     op["names"] = rng.sample(cfg["reads"], min(len(cfg["reads"]), rng.randint(1, 4)))
                 if k == "transform":
-                    op["cls"] = rng.choice(["translation", "rigid", "similarity", "mirror", "uniform_scale", "aniso", "shrink"])
-                    op["tiny"] = rng.choice([4e-5, 1e-5, 3e-4])
+                    op["cls"] = rng.choice(["translation", "rigid", "similarity", "mirror", "uniform_scale", "aniso", "shrink", "nudge"])
+                    op["tiny"] = rng.choice([4e-5, 1e-5, 3e-4, 2e-6])
                     op.update({"theta": round(rng.uniform(0.2, 2.9), 4), "s": round(rng.choice([rng.uniform(0.4, 0.8), rng.uniform(1.3, 2.5)]), 3), "s2": round(rng.uniform(1.4, 2.2), 3), "t": [round(rng.uniform(-2, 2), 3), round(rng.uniform(-2, 2), 3)]})
                 if k == "roundtrip":
                     op["fmt"] = rng.choice(["dxf", "svg", "dict"])
@@ -358,6 +358,10 @@ class C14(World):
         elif cls == "shrink":
             # a drawing in other units: a similarity all the same (absolute tolerances must not eat it)
             A = float(op.get("tiny", 4e-5)) * R
+        elif cls == "nudge":
+            # a few millionths: a turn of 5 microradians and a shift of 8 millionths of a unit (a transform like any other)
+            A = np.array([[math.cos(5e-6), -math.sin(5e-6)], [math.sin(5e-6), math.cos(5e-6)]])
+            t = [8e-6, -6e-6]
         elif cls == "mirror":
             A = R @ np.diag([1.0, -1.0])
         else:
@@ -417,7 +421,7 @@ class C14(World):
                 if path is None:
                     raise Inapplicable()
                 memo = set(path._cache.cache.keys())
-                if state.get("shrunk") and k in ("merge_vertices", "process", "roundtrip", "reverse_entity"):
+                if state.get("shrunk") and k in ("roundtrip", "reverse_entity"):
                     raise Inapplicable()
                 if k == "read":
                     self._check_all(path, curves, M_total, state, first, ctx, op["names"])
